@@ -1,8 +1,9 @@
 #!/bin/bash
 # usage: coqgoal.sh FILE LINE  -- show the goals after line LINE of FILE (relative to /verif/coq)
 f=$1; n=$2
+cd /verif/coq
 tmp=$(mktemp /tmp/goalXXXX.v)
 head -n $n "$f" > $tmp
 echo "Show. Show Existentials." >> $tmp
-cd /verif/coq && timeout 120 coqc -Q . Semver $tmp 2>&1 | tail -${3:-40}
+timeout 120 coqc -Q . Semver $tmp 2>&1 | tail -${3:-40}
 rm -f $tmp ${tmp%.v}.vo ${tmp%.v}.glob ${tmp%.v}.vok ${tmp%.v}.vos
